@@ -221,7 +221,7 @@ def size_sweep(ctx, b):
     tmp = os.path.join(d, "tmp")
     os.makedirs(tmp, exist_ok=True)
     step = 96 if ctx.quick() else 12
-    L = ["scratch " + d, "clock 1000"]
+    L = ["scratch " + d, "clock 1000", "null_destroys"]
     paths = []
     longkeys, firstkey = set(), {}
     for n, vlen in enumerate(range(3500, 3500 + 4096 + 700, step)):
@@ -259,7 +259,7 @@ def size_sweep(ctx, b):
         o("r_destroy 1")
     for pth in bad:
         o("r_init 7 %s 0 0" % pth)
-    L += ["obs " + tmp, "leakcheck", "---"]
+    L += ["null_destroys", "obs " + tmp, "leakcheck", "---"]
     evs, rc, err = core.run_drv(b, "\n".join(L) + "\n", d, "sizes", fork=True, timeout=900,
                                 env={"ASAN_OPTIONS": "detect_leaks=1:exitcode=99:allocator_may_return_null=1", "LSAN_OPTIONS": "exitcode=0:print_suppressions=0"})
     recs = core.convert_events(evs)
